@@ -2,9 +2,11 @@
    vector handed to SignalEncoder::add_n_bit_change is re-packed into the least sufficient kind (check_min_state,
    compress_template) and appended as one stream entry; with storage_transparent (Properties/C04.v, raw value
    changes are part of its histories) the loaded signal reports exactly those symbols.
-   NOT proved: the VecBuffer assembly of vectors from per-bit records, the section grammar, the hierarchy; those
+   Also pinned: the vector buffer - writing one per-bit record (VecBuffer::set_value) is writing one symbol of the
+   vector (first declared element leftmost) and keeps the buffer correctly packed (ve_set_spec, ve_get_spec).
+   NOT proved: the dispatch schedule of the buffer (when a vector is handed to the store), the section grammar, the hierarchy; those
    are decided by the correspondence run on signal sections and by the GHW file generator (MANIFEST level_note). *)
-From WV Require Import Model.Base Model.Bits Model.WaveMem Proofs.BitsProofs Proofs.StoreProofs Proofs.RawProofs.
+From WV Require Import Model.Base Model.Bits Model.WaveMem Model.Ghw Proofs.BitsProofs Proofs.StoreProofs Proofs.RawProofs Proofs.VecProofs.
 Open Scope N_scope.
 
 Check compress_template_spec :
@@ -30,6 +32,17 @@ Check add_n_bit_change_entry :
     (bits = 1%nat -> l = from_value (hd 0 syms)) /\
     se_tpe se' = se_tpe se /\ se_prev se' = t /\ se_max se' = join (se_max se) st.
 
+(* VecBuffer::set_value / get_value on a vector whose buffer is the packed form of `syms`: bit 0 is the last declared
+   element; the result is again the packed form (of the updated symbol list) *)
+Check ve_set_spec :
+  forall v syms bit value, vinv v syms -> (bit < ve_bits v)%nat -> value < 2 ^ sbits (ve_states v) ->
+  ve_set_value v bit value = Ok (write_n_state_loop (ve_states v) (list_update syms (ve_bits v - 1 - bit) value) 0 None).
+Check ve_get_spec :
+  forall v syms bit, vinv v syms -> (bit < ve_bits v)%nat ->
+  ve_get_value v bit = Ok (nth (ve_bits v - 1 - bit) syms 0).
+
+Print Assumptions ve_set_spec.
+Print Assumptions ve_get_spec.
 Print Assumptions compress_template_spec.
 Print Assumptions check_min_state_spec.
 Print Assumptions add_n_bit_change_entry.
